@@ -230,7 +230,15 @@ class Profile:
                 else:
                     try:
                         if isinstance(self.__dict__[n], bool):
-                            self.__dict__[n] = not (v in ["False", "0"])
+                            if isinstance(v, str):
+                                if v.lower() in ["true", "1"]:
+                                    self.__dict__[n] = True
+                                elif v.lower() in ["false", "0"]:
+                                    self.__dict__[n] = False
+                                else:
+                                    raise ValueError(v)
+                            else:
+                                self.__dict__[n] = bool(v)
                         else:
                             typ = type(self.__dict__[n])
                             self.__dict__[n] = typ(v)
